@@ -119,7 +119,7 @@ verif_osstring_from_str($a)
                     line_changes@, blocks_filter)),
         // summary used by B7: the result is a function of the inputs
         outcome_of(r) == parse_file_spec(*file_path, line_changes@, blocks_filter, file_reader, parsers@, extra_file_extensions@), // [B5.post.outcome_is_function_of_inputs]
-//@dropcall rule=E1 name=context
+//@dropcall rule=E1 name=context optional=1
 //@closure rule=E12 find=<<|block|>> params=<<|block: Block|>> ret=<<o: Option<BlockWithContext>>>
             requires
                 block_wf(block),
@@ -140,6 +140,593 @@ verif_osstring_from_str($a)
             && blocks_with_context@ == somes(outs);
         assert(outs =~= Seq::new(bs.len(), |i: int| select_block(bs[i], lcs, blocks_filter)));
     }
+//@end
+
+impl FileBlocks {
+//@unit id=B7e file=src/blocks.rs fn=<<impl FileBlocks::is_empty>> ret=r
+//@contract
+        ensures r == (self.blocks_with_context@.len() == 0), // [B7e.post.empty_iff_no_blocks]
+//@end
+}
+
+// ---------------------------------------------------------------------------------------------
+// B7: specification of `parse_blocks`, written from the statements of C15 / C02 / C12 / C20.
+//
+// C15: "The files examined are every file under the root that matches a positional glob [walk ∧
+// allow] ... plus every file named in the diff, minus anything matching an --ignore glob, which wins
+// over both. Files outside that set never contribute blocks, diagnostics or errors."
+// C02: "with a diff and no path arguments, the blocks listed are exactly those the diff touches
+// [filter ModifiedOnly] ... adding path arguments additionally validates every block of the matching
+// files [filter All]".
+
+pub type Walk = Seq<anyhow::Result<PathBuf>>;
+
+/// the directory walk yields `p` among its first `n` items, `p` matches a positional glob and no
+/// --ignore glob
+pub open spec fn consumed_before<PC: PathChecker>(walk: Walk, pc: &PC, p: PathBuf, n: int) -> bool {
+    exists|i: int| 0 <= i < n && i < walk.len() && #[trigger] walk[i] == Ok::<PathBuf, anyhow::Error>(p)
+        && pc.allow_spec(p) && !pc.ignore_spec(p)
+}
+
+/// how much of the walk is looked at: all of it with path arguments (main.rs:
+/// `should_scan_files = !glob_set.is_empty()`), nothing otherwise
+pub open spec fn scan_len(scan: bool, walk: Walk) -> int {
+    if scan { walk.len() as int } else { 0 }
+}
+
+/// C15, first summand: `p` is under the root, matches a positional glob and is not ignored
+pub open spec fn scanned<PC: PathChecker>(scan: bool, walk: Walk, pc: &PC, p: PathBuf) -> bool {
+    consumed_before(walk, pc, p, scan_len(scan, walk))
+}
+
+/// C15, second summand: `p` is named in the diff, is not ignored (and is not already in the first summand)
+pub open spec fn diff_only<PC: PathChecker>(scan: bool, walk: Walk, pc: &PC, lc0: Map<PathBuf, Vec<LineChange>>, p: PathBuf) -> bool {
+    lc0.contains_key(p) && !scanned(scan, walk, pc, p) && !pc.ignore_spec(p)
+}
+
+/// C15: the set of files examined
+pub open spec fn in_scope<PC: PathChecker>(scan: bool, walk: Walk, pc: &PC, lc0: Map<PathBuf, Vec<LineChange>>, p: PathBuf) -> bool {
+    scanned(scan, walk, pc, p) || diff_only(scan, walk, pc, lc0, p)
+}
+
+/// the line changes the diff has for `p` (none if the diff does not name it)
+pub open spec fn changes_of(lc0: Map<PathBuf, Vec<LineChange>>, p: PathBuf) -> Seq<LineChange> {
+    if lc0.contains_key(p) { lc0[p]@ } else { Seq::empty() }
+}
+
+/// C02: a file matching a path argument has every block listed (flags from the diff, if it names the file)
+pub open spec fn scan_outcome<FS: FileSystem>(p: PathBuf, lc0: Map<PathBuf, Vec<LineChange>>, fs: &FS,
+    parsers: Map<OsString, LanguageParser>, extra: Map<OsString, OsString>) -> FileOutcome {
+    parse_file_spec(p, changes_of(lc0, p), BlocksFilter::All, fs, parsers, extra)
+}
+
+/// C02: a file only named in the diff has exactly the touched blocks listed
+pub open spec fn diff_outcome<FS: FileSystem>(p: PathBuf, lc0: Map<PathBuf, Vec<LineChange>>, fs: &FS,
+    parsers: Map<OsString, LanguageParser>, extra: Map<OsString, OsString>) -> FileOutcome {
+    parse_file_spec(p, lc0[p]@, BlocksFilter::ModifiedOnly, fs, parsers, extra)
+}
+
+/// what the run makes of file `p` (files out of scope: nothing)
+pub open spec fn expected<FS: FileSystem, PC: PathChecker>(p: PathBuf, lc0: Map<PathBuf, Vec<LineChange>>, scan: bool, fs: &FS, pc: &PC,
+    parsers: Map<OsString, LanguageParser>, extra: Map<OsString, OsString>) -> FileOutcome {
+    if scanned(scan, fs.walk_spec(), pc, p) {
+        scan_outcome(p, lc0, fs, parsers, extra)
+    } else if diff_only(scan, fs.walk_spec(), pc, lc0, p) {
+        diff_outcome(p, lc0, fs, parsers, extra)
+    } else {
+        FileOutcome::Skipped
+    }
+}
+
+pub open spec fn nonempty(o: FileOutcome) -> bool {
+    o matches FileOutcome::Parsed { content, blocks } && blocks.len() > 0
+}
+
+/// the stored `FileBlocks` is (views) the outcome
+pub open spec fn holds(fb: FileBlocks, o: FileOutcome) -> bool {
+    o == (FileOutcome::Parsed { content: fb.file_content@, blocks: fb.blocks_with_context@ })
+}
+
+/// Everything B7 guarantees about an `Ok` result, as one predicate over the map view.
+pub open spec fn b7_ok_post<FS: FileSystem, PC: PathChecker>(res: Map<PathBuf, FileBlocks>, lc0: Map<PathBuf, Vec<LineChange>>, scan: bool, fs: &FS, pc: &PC,
+    parsers: Map<OsString, LanguageParser>, extra: Map<OsString, OsString>) -> bool {
+    &&& forall|p: PathBuf| #[trigger] res.contains_key(p) <==>
+            in_scope(scan, fs.walk_spec(), pc, lc0, p) && nonempty(expected(p, lc0, scan, fs, pc, parsers, extra))
+    &&& forall|p: PathBuf| res.contains_key(p) ==> holds(#[trigger] res[p], expected(p, lc0, scan, fs, pc, parsers, extra))
+}
+
+/// some item of the walk that is looked at is an error, or some file in scope cannot be read / parsed
+pub open spec fn b7_has_failure<FS: FileSystem, PC: PathChecker>(lc0: Map<PathBuf, Vec<LineChange>>, scan: bool, fs: &FS, pc: &PC,
+    parsers: Map<OsString, LanguageParser>, extra: Map<OsString, OsString>) -> bool {
+    ||| exists|i: int| 0 <= i < scan_len(scan, fs.walk_spec()) && (#[trigger] fs.walk_spec()[i]) is Err
+    ||| exists|p: PathBuf| in_scope(scan, fs.walk_spec(), pc, lc0, p) && (#[trigger] expected(p, lc0, scan, fs, pc, parsers, extra)) is Fails
+}
+
+/// T-ext precondition: a directory walk yields every file at most once
+pub open spec fn walk_distinct(walk: Walk) -> bool {
+    forall|i: int, j: int| 0 <= i < j < walk.len() && (#[trigger] walk[i]) is Ok && (#[trigger] walk[j]) is Ok ==> walk[i]->Ok_0 != walk[j]->Ok_0
+}
+
+/// C20 (order independence of B7). `parse_blocks` is proved for an ARBITRARY iteration order of the
+/// diff's hash map (E4: the ghost sequence of `verif_map_into_iter` is only known to enumerate the
+/// map), so two runs that differ in hash seeds, or in the order the diff lists its files, both
+/// satisfy `b7_ok_post`. This lemma shows that `b7_ok_post` leaves no freedom: same files, and per
+/// file the same content and the same blocks with the same flags. (The walk ORDER does not occur in
+/// `b7_ok_post` either: `scanned` is an `exists` over walk positions.)
+pub proof fn lemma_b7_order_independent<FS: FileSystem, PC: PathChecker>(res1: Map<PathBuf, FileBlocks>, res2: Map<PathBuf, FileBlocks>,
+    lc0: Map<PathBuf, Vec<LineChange>>, scan: bool, fs: &FS, pc: &PC, parsers: Map<OsString, LanguageParser>, extra: Map<OsString, OsString>)
+    requires
+        b7_ok_post(res1, lc0, scan, fs, pc, parsers, extra),
+        b7_ok_post(res2, lc0, scan, fs, pc, parsers, extra),
+    ensures
+        res1.dom() =~= res2.dom(), // [B7.post.order_independent]
+        forall|p: PathBuf| res1.contains_key(p) ==> (#[trigger] res1[p]).file_content@ == res2[p].file_content@
+            && res1[p].blocks_with_context@ == res2[p].blocks_with_context@,
+{
+    assert forall|p: PathBuf| res1.dom().contains(p) <==> res2.dom().contains(p) by {
+        assert(res1.contains_key(p) <==> res2.contains_key(p));
+    }
+    assert forall|p: PathBuf| res1.contains_key(p) implies (#[trigger] res1[p]).file_content@ == res2[p].file_content@
+        && res1[p].blocks_with_context@ == res2[p].blocks_with_context@ by {
+        assert(res2.contains_key(p));
+        assert(holds(res1[p], expected(p, lc0, scan, fs, pc, parsers, extra)));
+        assert(holds(res2[p], expected(p, lc0, scan, fs, pc, parsers, extra)));
+    }
+}
+
+// ---- loop invariants of B7 as predicates ------------------------------------------------------------
+// The three predicates are opaque in `parse_blocks` itself; every step of the two loops is a lemma
+// below (keeps the verification condition of the 60-line function small and its failures local).
+
+/// first loop, diff map: a diff file is still pending iff the walk has not consumed it (a walked file
+/// that is NOT allowed, or ignored, stays pending: C15 "plus every file named in the diff")
+#[verifier::opaque]
+pub open spec fn inv1_map<PC: PathChecker>(m: Map<PathBuf, Vec<LineChange>>, lc0: Map<PathBuf, Vec<LineChange>>, walk: Walk, pc: &PC, n: int) -> bool {
+    &&& forall|p: PathBuf| #[trigger] m.contains_key(p) <==> lc0.contains_key(p) && !consumed_before(walk, pc, p, n)
+    &&& forall|p: PathBuf| m.contains_key(p) ==> #[trigger] m[p] == lc0[p]
+}
+
+/// first loop, result: exactly the consumed files with at least one block, each with its `All`
+/// outcome; no consumed file failed; no walk item so far was an error
+#[verifier::opaque]
+pub open spec fn inv1_res<FS: FileSystem, PC: PathChecker>(res: Map<PathBuf, FileBlocks>, lc0: Map<PathBuf, Vec<LineChange>>, fs: &FS, pc: &PC,
+    parsers: Map<OsString, LanguageParser>, extra: Map<OsString, OsString>, n: int) -> bool {
+    &&& forall|p: PathBuf| #[trigger] res.contains_key(p) <==>
+            consumed_before(fs.walk_spec(), pc, p, n) && nonempty(scan_outcome(p, lc0, fs, parsers, extra))
+    &&& forall|p: PathBuf| res.contains_key(p) ==> holds(#[trigger] res[p], scan_outcome(p, lc0, fs, parsers, extra))
+    &&& forall|p: PathBuf| #[trigger] consumed_before(fs.walk_spec(), pc, p, n) ==> !(scan_outcome(p, lc0, fs, parsers, extra) is Fails)
+    &&& forall|i: int| 0 <= i < n && i < fs.walk_spec().len() ==> (#[trigger] fs.walk_spec()[i]) is Ok
+}
+
+/// `p` is one of the first `k` entries of the (arbitrarily ordered) pending diff files
+pub open spec fn visited(ents: Seq<(PathBuf, Vec<LineChange>)>, p: PathBuf, k: int) -> bool {
+    exists|j: int| 0 <= j < k && j < ents.len() && (#[trigger] ents[j]).0 == p
+}
+
+/// second loop, result
+#[verifier::opaque]
+pub open spec fn inv2_res<FS: FileSystem, PC: PathChecker>(res: Map<PathBuf, FileBlocks>, ents: Seq<(PathBuf, Vec<LineChange>)>, k: int,
+    lc0: Map<PathBuf, Vec<LineChange>>, scan: bool, fs: &FS, pc: &PC, parsers: Map<OsString, LanguageParser>, extra: Map<OsString, OsString>) -> bool {
+    &&& forall|p: PathBuf| #[trigger] res.contains_key(p) <==>
+            (scanned(scan, fs.walk_spec(), pc, p) && nonempty(scan_outcome(p, lc0, fs, parsers, extra)))
+            || (visited(ents, p, k) && !pc.ignore_spec(p) && nonempty(diff_outcome(p, lc0, fs, parsers, extra)))
+    &&& forall|p: PathBuf| res.contains_key(p) ==> holds(#[trigger] res[p], expected(p, lc0, scan, fs, pc, parsers, extra))
+    &&& forall|p: PathBuf| #[trigger] visited(ents, p, k) && !pc.ignore_spec(p) ==> !(diff_outcome(p, lc0, fs, parsers, extra) is Fails)
+}
+
+/// `blocks.insert(path, file_blocks)` iff `parse_file` returned `Some` and the file has a listed block
+pub open spec fn store(res: Map<PathBuf, FileBlocks>, p: PathBuf, fbo: Option<FileBlocks>) -> Map<PathBuf, FileBlocks> {
+    if fbo is Some && fbo.unwrap().blocks_with_context@.len() > 0 { res.insert(p, fbo.unwrap()) } else { res }
+}
+
+proof fn lemma_consumed_step<PC: PathChecker>(walk: Walk, pc: &PC, n: int)
+    requires 0 <= n < walk.len(),
+    ensures
+        forall|p: PathBuf| #[trigger] consumed_before(walk, pc, p, n + 1) <==>
+            consumed_before(walk, pc, p, n) || (walk[n] == Ok::<PathBuf, anyhow::Error>(p) && pc.allow_spec(p) && !pc.ignore_spec(p)),
+        forall|p: PathBuf| consumed_before(walk, pc, p, n + 1) ==> #[trigger] consumed_before(walk, pc, p, walk.len() as int),
+{
+    assert forall|p: PathBuf| #[trigger] consumed_before(walk, pc, p, n + 1) implies
+        consumed_before(walk, pc, p, n) || (walk[n] == Ok::<PathBuf, anyhow::Error>(p) && pc.allow_spec(p) && !pc.ignore_spec(p)) by {
+        let i = choose|i: int| 0 <= i < n + 1 && i < walk.len() && #[trigger] walk[i] == Ok::<PathBuf, anyhow::Error>(p) && pc.allow_spec(p) && !pc.ignore_spec(p);
+        if i < n { assert(consumed_before(walk, pc, p, n)); }
+    }
+    assert forall|p: PathBuf| consumed_before(walk, pc, p, n) || (walk[n] == Ok::<PathBuf, anyhow::Error>(p) && pc.allow_spec(p) && !pc.ignore_spec(p))
+        implies #[trigger] consumed_before(walk, pc, p, n + 1) by {
+        if consumed_before(walk, pc, p, n) {
+            let i = choose|i: int| 0 <= i < n && i < walk.len() && #[trigger] walk[i] == Ok::<PathBuf, anyhow::Error>(p) && pc.allow_spec(p) && !pc.ignore_spec(p);
+            assert(walk[i] == Ok::<PathBuf, anyhow::Error>(p));
+        } else {
+            assert(walk[n] == Ok::<PathBuf, anyhow::Error>(p));
+        }
+    }
+    assert forall|p: PathBuf| consumed_before(walk, pc, p, n + 1) implies #[trigger] consumed_before(walk, pc, p, walk.len() as int) by {
+        let i = choose|i: int| 0 <= i < n + 1 && i < walk.len() && #[trigger] walk[i] == Ok::<PathBuf, anyhow::Error>(p) && pc.allow_spec(p) && !pc.ignore_spec(p);
+        assert(walk[i] == Ok::<PathBuf, anyhow::Error>(p));
+    }
+}
+
+/// a distinct walk has not consumed the path it yields at position `n` before
+proof fn lemma_not_consumed_yet<PC: PathChecker>(walk: Walk, pc: &PC, n: int, p: PathBuf)
+    requires 0 <= n < walk.len(), walk_distinct(walk), walk[n] == Ok::<PathBuf, anyhow::Error>(p),
+    ensures !consumed_before(walk, pc, p, n),
+{
+    if consumed_before(walk, pc, p, n) {
+        let i = choose|i: int| 0 <= i < n && i < walk.len() && #[trigger] walk[i] == Ok::<PathBuf, anyhow::Error>(p) && pc.allow_spec(p) && !pc.ignore_spec(p);
+        assert(walk[i] is Ok && walk[n] is Ok);
+    }
+}
+
+proof fn lemma_visited_step(ents: Seq<(PathBuf, Vec<LineChange>)>, k: int)
+    requires 0 <= k < ents.len(),
+    ensures
+        forall|p: PathBuf| #[trigger] visited(ents, p, k + 1) <==> visited(ents, p, k) || ents[k].0 == p,
+{
+    assert forall|p: PathBuf| #[trigger] visited(ents, p, k + 1) implies visited(ents, p, k) || ents[k].0 == p by {
+        let j = choose|j: int| 0 <= j < k + 1 && j < ents.len() && (#[trigger] ents[j]).0 == p;
+        if j < k { assert(visited(ents, p, k)); }
+    }
+    assert forall|p: PathBuf| visited(ents, p, k) || ents[k].0 == p implies #[trigger] visited(ents, p, k + 1) by {
+        if visited(ents, p, k) {
+            let j = choose|j: int| 0 <= j < k && j < ents.len() && (#[trigger] ents[j]).0 == p;
+            assert(ents[j].0 == p);
+        } else {
+            assert(ents[k].0 == p);
+        }
+    }
+}
+
+/// once every pending diff file has been visited: visited = still pending after the walk
+proof fn lemma_visited_all(ents: Seq<(PathBuf, Vec<LineChange>)>, m: Map<PathBuf, Vec<LineChange>>)
+    requires blocks_entries(ents, m),
+    ensures forall|p: PathBuf| #[trigger] visited(ents, p, ents.len() as int) <==> m.contains_key(p),
+{
+    assert forall|p: PathBuf| #[trigger] visited(ents, p, ents.len() as int) implies m.contains_key(p) by {
+        let j = choose|j: int| 0 <= j < ents.len() && j < ents.len() && (#[trigger] ents[j]).0 == p;
+        assert(m.contains_key(ents[j].0));
+    }
+    assert forall|p: PathBuf| m.contains_key(p) implies #[trigger] visited(ents, p, ents.len() as int) by {
+        let i = choose|i: int| 0 <= i < ents.len() && (#[trigger] ents[i]).0 == p;
+        assert(ents[i].0 == p);
+    }
+}
+
+/// before the walk: nothing consumed, nothing stored
+proof fn lemma_b7_init<FS: FileSystem, PC: PathChecker>(lc0: Map<PathBuf, Vec<LineChange>>, fs: &FS, pc: &PC,
+    parsers: Map<OsString, LanguageParser>, extra: Map<OsString, OsString>)
+    ensures
+        inv1_map(lc0, lc0, fs.walk_spec(), pc, 0),
+        inv1_res(Map::<PathBuf, FileBlocks>::empty(), lc0, fs, pc, parsers, extra, 0),
+{
+    reveal(inv1_map);
+    reveal(inv1_res);
+}
+
+/// first loop, a walked file that is not allowed or is ignored: nothing changes — in particular it
+/// stays in the diff map (the seeded fault C02-3 removes it there)
+proof fn lemma_b7_step1_skip<FS: FileSystem, PC: PathChecker>(m: Map<PathBuf, Vec<LineChange>>, res: Map<PathBuf, FileBlocks>, lc0: Map<PathBuf, Vec<LineChange>>,
+    fs: &FS, pc: &PC, parsers: Map<OsString, LanguageParser>, extra: Map<OsString, OsString>, n: int, fp: PathBuf)
+    requires
+        0 <= n < fs.walk_spec().len(),
+        fs.walk_spec()[n] == Ok::<PathBuf, anyhow::Error>(fp),
+        !pc.allow_spec(fp) || pc.ignore_spec(fp),
+        inv1_map(m, lc0, fs.walk_spec(), pc, n),
+        inv1_res(res, lc0, fs, pc, parsers, extra, n),
+    ensures
+        inv1_map(m, lc0, fs.walk_spec(), pc, n + 1),
+        inv1_res(res, lc0, fs, pc, parsers, extra, n + 1),
+{
+    reveal(inv1_map);
+    reveal(inv1_res);
+    lemma_consumed_step(fs.walk_spec(), pc, n);
+    assert forall|p: PathBuf| consumed_before(fs.walk_spec(), pc, p, n + 1) <==> consumed_before(fs.walk_spec(), pc, p, n) by {}
+}
+
+/// first loop, a walked file that is allowed and not ignored, before `parse_file`
+proof fn lemma_b7_step1_pre<FS: FileSystem, PC: PathChecker>(m: Map<PathBuf, Vec<LineChange>>, lc0: Map<PathBuf, Vec<LineChange>>, scan: bool,
+    fs: &FS, pc: &PC, parsers: Map<OsString, LanguageParser>, extra: Map<OsString, OsString>, n: int, fp: PathBuf)
+    requires
+        scan,
+        0 <= n < fs.walk_spec().len(),
+        walk_distinct(fs.walk_spec()),
+        fs.walk_spec()[n] == Ok::<PathBuf, anyhow::Error>(fp),
+        pc.allow_spec(fp) && !pc.ignore_spec(fp),
+        inv1_map(m, lc0, fs.walk_spec(), pc, n),
+    ensures
+        m.contains_key(fp) <==> lc0.contains_key(fp),
+        m.contains_key(fp) ==> m[fp] == lc0[fp],
+        scanned(scan, fs.walk_spec(), pc, fp),
+        in_scope(scan, fs.walk_spec(), pc, lc0, fp),
+        expected(fp, lc0, scan, fs, pc, parsers, extra) == scan_outcome(fp, lc0, fs, parsers, extra),
+{
+    reveal(inv1_map);
+    lemma_not_consumed_yet(fs.walk_spec(), pc, n, fp);
+    lemma_consumed_step(fs.walk_spec(), pc, n);
+    assert(consumed_before(fs.walk_spec(), pc, fp, n + 1));
+}
+
+/// first loop, after `parse_file` succeeded on a consumed file
+proof fn lemma_b7_step1_parse<FS: FileSystem, PC: PathChecker>(m: Map<PathBuf, Vec<LineChange>>, res: Map<PathBuf, FileBlocks>, lc0: Map<PathBuf, Vec<LineChange>>,
+    fs: &FS, pc: &PC, parsers: Map<OsString, LanguageParser>, extra: Map<OsString, OsString>, n: int, fp: PathBuf, fbo: Option<FileBlocks>)
+    requires
+        0 <= n < fs.walk_spec().len(),
+        walk_distinct(fs.walk_spec()),
+        fs.walk_spec()[n] == Ok::<PathBuf, anyhow::Error>(fp),
+        pc.allow_spec(fp) && !pc.ignore_spec(fp),
+        inv1_map(m, lc0, fs.walk_spec(), pc, n),
+        inv1_res(res, lc0, fs, pc, parsers, extra, n),
+        outcome_of(Ok(fbo)) == scan_outcome(fp, lc0, fs, parsers, extra),
+    ensures
+        inv1_map(m.remove(fp), lc0, fs.walk_spec(), pc, n + 1),
+        inv1_res(store(res, fp, fbo), lc0, fs, pc, parsers, extra, n + 1),
+{
+    reveal(inv1_map);
+    reveal(inv1_res);
+    let walk = fs.walk_spec();
+    lemma_not_consumed_yet(walk, pc, n, fp);
+    lemma_consumed_step(walk, pc, n);
+    let res2 = store(res, fp, fbo);
+    assert forall|p: PathBuf| #[trigger] res2.contains_key(p) <==>
+        consumed_before(walk, pc, p, n + 1) && nonempty(scan_outcome(p, lc0, fs, parsers, extra)) by {
+        if p != fp { assert(res2.contains_key(p) <==> res.contains_key(p)); }
+    }
+    assert forall|p: PathBuf| res2.contains_key(p) implies holds(#[trigger] res2[p], scan_outcome(p, lc0, fs, parsers, extra)) by {
+        if p != fp { assert(res.contains_key(p)); assert(res2[p] == res[p]); }
+    }
+    let m2 = m.remove(fp);
+    assert forall|p: PathBuf| #[trigger] m2.contains_key(p) <==> lc0.contains_key(p) && !consumed_before(walk, pc, p, n + 1) by {
+        if p != fp { assert(m2.contains_key(p) <==> m.contains_key(p)); }
+    }
+    assert forall|p: PathBuf| m2.contains_key(p) implies #[trigger] m2[p] == lc0[p] by {
+        assert(m.contains_key(p));
+    }
+}
+
+/// between the loops
+proof fn lemma_b7_between<FS: FileSystem, PC: PathChecker>(m1: Map<PathBuf, Vec<LineChange>>, res: Map<PathBuf, FileBlocks>, ents: Seq<(PathBuf, Vec<LineChange>)>,
+    lc0: Map<PathBuf, Vec<LineChange>>, scan: bool, fs: &FS, pc: &PC, parsers: Map<OsString, LanguageParser>, extra: Map<OsString, OsString>)
+    requires
+        inv1_res(res, lc0, fs, pc, parsers, extra, scan_len(scan, fs.walk_spec())),
+    ensures
+        inv2_res(res, ents, 0, lc0, scan, fs, pc, parsers, extra),
+{
+    reveal(inv1_res);
+    reveal(inv2_res);
+    assert forall|p: PathBuf| !visited(ents, p, 0) by {}
+}
+
+/// second loop: what is known about the entry visited now
+proof fn lemma_b7_step2_pre<FS: FileSystem, PC: PathChecker>(m1: Map<PathBuf, Vec<LineChange>>, ents: Seq<(PathBuf, Vec<LineChange>)>, k: int,
+    lc0: Map<PathBuf, Vec<LineChange>>, scan: bool, fs: &FS, pc: &PC, parsers: Map<OsString, LanguageParser>, extra: Map<OsString, OsString>)
+    requires
+        0 <= k < ents.len(),
+        blocks_entries(ents, m1),
+        inv1_map(m1, lc0, fs.walk_spec(), pc, scan_len(scan, fs.walk_spec())),
+    ensures
+        lc0.contains_key(ents[k].0) && lc0[ents[k].0] == ents[k].1,
+        !scanned(scan, fs.walk_spec(), pc, ents[k].0),
+        !pc.ignore_spec(ents[k].0) ==> in_scope(scan, fs.walk_spec(), pc, lc0, ents[k].0)
+            && expected(ents[k].0, lc0, scan, fs, pc, parsers, extra) == diff_outcome(ents[k].0, lc0, fs, parsers, extra),
+{
+    reveal(inv1_map);
+    assert(m1.contains_key(ents[k].0) && m1[ents[k].0] == ents[k].1);
+}
+
+/// second loop, an ignored diff file: nothing stored (C15: --ignore wins over the diff too)
+proof fn lemma_b7_step2_skip<FS: FileSystem, PC: PathChecker>(res: Map<PathBuf, FileBlocks>, ents: Seq<(PathBuf, Vec<LineChange>)>, k: int,
+    lc0: Map<PathBuf, Vec<LineChange>>, scan: bool, fs: &FS, pc: &PC, parsers: Map<OsString, LanguageParser>, extra: Map<OsString, OsString>)
+    requires
+        0 <= k < ents.len(),
+        pc.ignore_spec(ents[k].0),
+        inv2_res(res, ents, k, lc0, scan, fs, pc, parsers, extra),
+    ensures
+        inv2_res(res, ents, k + 1, lc0, scan, fs, pc, parsers, extra),
+{
+    reveal(inv2_res);
+    lemma_visited_step(ents, k);
+}
+
+/// second loop, after `parse_file` succeeded on a pending diff file that is not ignored
+proof fn lemma_b7_step2_parse<FS: FileSystem, PC: PathChecker>(m1: Map<PathBuf, Vec<LineChange>>, res: Map<PathBuf, FileBlocks>, ents: Seq<(PathBuf, Vec<LineChange>)>, k: int,
+    lc0: Map<PathBuf, Vec<LineChange>>, scan: bool, fs: &FS, pc: &PC, parsers: Map<OsString, LanguageParser>, extra: Map<OsString, OsString>, fbo: Option<FileBlocks>)
+    requires
+        0 <= k < ents.len(),
+        blocks_entries(ents, m1),
+        inv1_map(m1, lc0, fs.walk_spec(), pc, scan_len(scan, fs.walk_spec())),
+        !pc.ignore_spec(ents[k].0),
+        inv2_res(res, ents, k, lc0, scan, fs, pc, parsers, extra),
+        outcome_of(Ok(fbo)) == diff_outcome(ents[k].0, lc0, fs, parsers, extra),
+    ensures
+        inv2_res(store(res, ents[k].0, fbo), ents, k + 1, lc0, scan, fs, pc, parsers, extra),
+{
+    reveal(inv2_res);
+    let fp = ents[k].0;
+    lemma_b7_step2_pre(m1, ents, k, lc0, scan, fs, pc, parsers, extra);
+    lemma_visited_step(ents, k);
+    // `fp` was not visited before (the entries have distinct keys) and is not a scanned file
+    assert(!visited(ents, fp, k)) by {
+        if visited(ents, fp, k) {
+            let j = choose|j: int| 0 <= j < k && j < ents.len() && (#[trigger] ents[j]).0 == fp;
+            assert(ents[j].0 != ents[k].0);
+        }
+    }
+    let res2 = store(res, fp, fbo);
+    assert forall|p: PathBuf| #[trigger] res2.contains_key(p) <==>
+        (scanned(scan, fs.walk_spec(), pc, p) && nonempty(scan_outcome(p, lc0, fs, parsers, extra)))
+        || (visited(ents, p, k + 1) && !pc.ignore_spec(p) && nonempty(diff_outcome(p, lc0, fs, parsers, extra))) by {
+        if p != fp { assert(res2.contains_key(p) <==> res.contains_key(p)); }
+    }
+    assert forall|p: PathBuf| res2.contains_key(p) implies holds(#[trigger] res2[p], expected(p, lc0, scan, fs, pc, parsers, extra)) by {
+        if p != fp { assert(res.contains_key(p)); assert(res2[p] == res[p]); }
+    }
+}
+
+/// after both loops
+proof fn lemma_b7_final<FS: FileSystem, PC: PathChecker>(m1: Map<PathBuf, Vec<LineChange>>, res1: Map<PathBuf, FileBlocks>, res: Map<PathBuf, FileBlocks>,
+    ents: Seq<(PathBuf, Vec<LineChange>)>, lc0: Map<PathBuf, Vec<LineChange>>, scan: bool, fs: &FS, pc: &PC,
+    parsers: Map<OsString, LanguageParser>, extra: Map<OsString, OsString>)
+    requires
+        blocks_entries(ents, m1),
+        inv1_map(m1, lc0, fs.walk_spec(), pc, scan_len(scan, fs.walk_spec())),
+        inv1_res(res1, lc0, fs, pc, parsers, extra, scan_len(scan, fs.walk_spec())),
+        inv2_res(res, ents, ents.len() as int, lc0, scan, fs, pc, parsers, extra),
+    ensures
+        b7_ok_post(res, lc0, scan, fs, pc, parsers, extra),
+        !b7_has_failure(lc0, scan, fs, pc, parsers, extra),
+{
+    reveal(inv1_map);
+    reveal(inv1_res);
+    reveal(inv2_res);
+    lemma_visited_all(ents, m1);
+    let walk = fs.walk_spec();
+    assert forall|p: PathBuf| visited(ents, p, ents.len() as int) && !pc.ignore_spec(p) <==> diff_only(scan, walk, pc, lc0, p) by {
+        assert(visited(ents, p, ents.len() as int) <==> m1.contains_key(p));
+    }
+    assert forall|p: PathBuf| #[trigger] res.contains_key(p) <==>
+        in_scope(scan, walk, pc, lc0, p) && nonempty(expected(p, lc0, scan, fs, pc, parsers, extra)) by {
+        assert(visited(ents, p, ents.len() as int) && !pc.ignore_spec(p) <==> diff_only(scan, walk, pc, lc0, p));
+    }
+    assert forall|p: PathBuf| in_scope(scan, walk, pc, lc0, p) implies
+        !((#[trigger] expected(p, lc0, scan, fs, pc, parsers, extra)) is Fails) by {
+        assert(visited(ents, p, ents.len() as int) && !pc.ignore_spec(p) <==> diff_only(scan, walk, pc, lc0, p));
+    }
+}
+
+#[verifier::loop_isolation(false)]
+//@unit id=B7 file=src/blocks.rs fn=parse_blocks ret=r
+//@contract
+    requires
+        // the line changes of every diff file are well formed (D-b / D-c, groups difflines, diffranges)
+        forall|p: PathBuf| line_changes_by_file@.contains_key(p) ==> lcs_wf(#[trigger] line_changes_by_file@[p]@), // [B7.pre.line_changes_wf]
+        walk_distinct(file_system.walk_spec()), // [B7.pre.walk_yields_each_file_once]
+        // permission to read is granted for the files in scope (that have a grammar) ONLY: whatever
+        // else is read would violate FS.read.pre (C15: "files outside that set never contribute ... errors")
+        forall|p: PathBuf| in_scope(should_scan_files, file_system.walk_spec(), path_checker, line_changes_by_file@, p)
+            && grammar_for(p, parsers@, extra_file_extensions@) is Some ==> #[trigger] file_system.may_read(p), // [B7.pre.may_read_in_scope_only]
+    ensures
+        // C15 + C02: the keys are exactly the files in scope that have at least one listed block; the
+        // value is what `parse_file` makes of the file: every block for files matching a path argument,
+        // the touched blocks for files only named in the diff
+        r matches Ok(res) ==> b7_ok_post(res@, line_changes_by_file@, should_scan_files, file_system, path_checker, parsers@, extra_file_extensions@), // [B7.post.exactly_files_in_scope]
+        r matches Ok(res) ==> forall|p: PathBuf| #[trigger] res@.contains_key(p) && scanned(should_scan_files, file_system.walk_spec(), path_checker, p) // [B7.post.glob_files_list_all_blocks]
+            ==> holds(res@[p], scan_outcome(p, line_changes_by_file@, file_system, parsers@, extra_file_extensions@)),
+        r matches Ok(res) ==> forall|p: PathBuf| #[trigger] res@.contains_key(p) && !scanned(should_scan_files, file_system.walk_spec(), path_checker, p) // [B7.post.diff_files_list_touched_blocks]
+            ==> line_changes_by_file@.contains_key(p) && holds(res@[p], diff_outcome(p, line_changes_by_file@, file_system, parsers@, extra_file_extensions@)),
+        // C15: --ignore wins over both
+        r matches Ok(res) ==> forall|p: PathBuf| path_checker.ignore_spec(p) ==> !(#[trigger] res@.contains_key(p)), // [B7.post.ignore_wins]
+        // C15: a diff file is in scope regardless of the globs — also when the walk meets it and skips it
+        r matches Ok(res) ==> forall|p: PathBuf| line_changes_by_file@.contains_key(p) && !path_checker.ignore_spec(p) && !path_checker.allow_spec(p) // [B7.post.diff_file_outside_globs_in_scope]
+            && nonempty(diff_outcome(p, line_changes_by_file@, file_system, parsers@, extra_file_extensions@)) ==> #[trigger] res@.contains_key(p),
+        // C12: a file in scope that fails to parse (or to be read), or a failing walk, is a hard error
+        r is Ok ==> !b7_has_failure(line_changes_by_file@, should_scan_files, file_system, path_checker, parsers@, extra_file_extensions@), // [B7.post.parse_err_propagates]
+        // ... and an error is never invented (C15: files out of scope contribute no errors)
+        r is Err ==> b7_has_failure(line_changes_by_file@, should_scan_files, file_system, path_checker, parsers@, extra_file_extensions@), // [B7.post.err_only_from_files_in_scope]
+//@edit rule=E16 find=<<let mut blocks = HashMap::new();>> optional=1
+    let mut blocks: HashMap<PathBuf, FileBlocks> = HashMap::new();
+//@forin rule=E14 find=<<for result in file_system.walk()>> var=verif_walk
+        invariant
+            0 <= n <= walk.len(),
+            verif_walk.pending() == walk.skip(n), // [B7.inv1.cursor]
+            inv1_map(line_changes_by_file@, lc0, walk, path_checker, n), // [B7.inv1.unconsumed_diff_files_stay_pending]
+            inv1_res(blocks@, lc0, file_system, path_checker, parsers@, extra_file_extensions@, n), // [B7.inv1.result_is_consumed_files]
+        decreases walk.len() - n, // [B7.term.walk_loop]
+//@forin rule=E4 find=<<for (file_path, line_changes) in line_changes_by_file>> var=verif_diff_files to=verif_map_into_iter
+        invariant
+            0 <= k <= ents.len(),
+            verif_diff_files.pending() == ents.skip(k), // [B7.inv2.cursor]
+            inv2_res(blocks@, ents, k, lc0, should_scan_files, file_system, path_checker, parsers@, extra_file_extensions@), // [B7.inv2.result]
+        decreases ents.len() - k, // [B7.term.diff_loop]
+//@edit rule=ghost before=<<let mut blocks>>
+    let ghost lc0 = line_changes_by_file@;
+    let ghost walk = file_system.walk_spec();
+    let ghost mut n: int = 0;
+    let ghost mut k: int = 0;
+    proof { lemma_b7_init(lc0, file_system, path_checker, parsers@, extra_file_extensions@); }
+//@edit rule=ghost after=<<match verif_walk.next() { Some(result) => {>>
+            let ghost n0 = n;
+            let ghost m0 = line_changes_by_file@;
+            let ghost res0 = blocks@;
+            proof {
+                assert(walk.skip(n0)[0] == walk[n0]);
+                assert(walk.skip(n0).skip(1) =~= walk.skip(n0 + 1));
+                n = n + 1;
+            }
+//@edit rule=ghost before=<<continue;>> nth=0 of=2
+                        proof {
+                            // a walked file that does not match the globs (or is ignored) is left alone: in
+                            // particular it stays in the diff map and is parsed by the second loop (C15)
+                            assert(line_changes_by_file@ == m0); // [B7.step1.skipped_file_stays_in_diff_map]
+                            assert(!path_checker.allow_spec(file_path) || path_checker.ignore_spec(file_path)); // [B7.step1.skip_iff_not_allowed_or_ignored]
+                            lemma_b7_step1_skip(m0, res0, lc0, file_system, path_checker, parsers@, extra_file_extensions@, n0, file_path);
+                        }
+//@edit rule=ghost before=<<let file_blocks_opt>> nth=0 of=2
+                    proof {
+                        assert(path_checker.allow_spec(file_path) && !path_checker.ignore_spec(file_path)); // [B7.step1.parsed_file_allowed_and_not_ignored]
+                        lemma_b7_step1_pre(m0, lc0, should_scan_files, file_system, path_checker, parsers@, extra_file_extensions@, n0, file_path);
+                        assert(line_changes_by_file@ == m0.remove(file_path)); // [B7.step1.consumed_file_leaves_diff_map]
+                        assert(line_changes@ == changes_of(lc0, file_path)); // [B7.step1.flags_from_this_files_diff]
+                    }
+//@edit rule=ghost before=<<if let Some(file_blocks) = file_blocks_opt>> nth=0 of=2
+                    let ghost fbo = file_blocks_opt;
+                    proof {
+                        assert(outcome_of(Ok(fbo)) == scan_outcome(file_path, lc0, file_system, parsers@, extra_file_extensions@)); // [B7.step1.parse_file_all_result_kept]
+                    }
+//@edit rule=ghost before=<<} Err(err) => {>>
+                    proof {
+                        assert(blocks@ == store(res0, file_path, fbo)); // [B7.step1.stored_iff_some_and_nonempty]
+                        lemma_b7_step1_parse(m0, res0, lc0, file_system, path_checker, parsers@, extra_file_extensions@, n0, file_path, fbo);
+                    }
+//@edit rule=ghost before=<<let mut verif_diff_files>>
+    let ghost m1 = line_changes_by_file@;
+    let ghost res1 = blocks@;
+    proof {
+        // the walk loop only ends when the walk is exhausted (`break` on `None`)
+        assert(n == scan_len(should_scan_files, walk)); // [B7.proof.walk_exhausted]
+    }
+//@edit rule=ghost after=<<let mut verif_diff_files = verif_map_into_iter(line_changes_by_file);>>
+    let ghost ents = verif_diff_files.pending();
+    proof {
+        assert(blocks_entries(ents, m1));
+        assert(ents.skip(0) =~= ents);
+        lemma_b7_between(m1, res1, ents, lc0, should_scan_files, file_system, path_checker, parsers@, extra_file_extensions@);
+    }
+//@edit rule=ghost after=<<match verif_diff_files.next() { Some((file_path, line_changes)) => {>>
+        let ghost k0 = k;
+        let ghost res0 = blocks@;
+        proof {
+            assert(ents.skip(k0)[0] == ents[k0]);
+            assert(ents.skip(k0).skip(1) =~= ents.skip(k0 + 1));
+            k = k + 1;
+            lemma_b7_step2_pre(m1, ents, k0, lc0, should_scan_files, file_system, path_checker, parsers@, extra_file_extensions@);
+        }
+//@edit rule=ghost before=<<continue;>> nth=1 of=2
+            proof {
+                assert(path_checker.ignore_spec(file_path)); // [B7.step2.skip_iff_ignored]
+                lemma_b7_step2_skip(res0, ents, k0, lc0, should_scan_files, file_system, path_checker, parsers@, extra_file_extensions@);
+            }
+//@edit rule=ghost before=<<let file_blocks_opt>> nth=1 of=2
+        proof {
+            assert(!path_checker.ignore_spec(file_path)); // [B7.step2.ignore_wins_over_diff]
+        }
+//@edit rule=ghost before=<<if let Some(file_blocks) = file_blocks_opt>> nth=1 of=2
+        let ghost fbo = file_blocks_opt;
+        proof {
+            assert(outcome_of(Ok(fbo)) == diff_outcome(file_path, lc0, file_system, parsers@, extra_file_extensions@)); // [B7.step2.parse_file_modified_only_result_kept]
+        }
+//@edit rule=ghost before=<<} None => { break; } } } Ok(blocks)>>
+        proof {
+            assert(blocks@ == store(res0, file_path, fbo)); // [B7.step2.stored_iff_some_and_nonempty]
+            lemma_b7_step2_parse(m1, res0, ents, k0, lc0, should_scan_files, file_system, path_checker, parsers@, extra_file_extensions@, fbo);
+        }
+//@edit rule=ghost before=<<Ok(blocks)>>
+    proof {
+        assert(k == ents.len()); // [B7.proof.diff_files_exhausted]
+        lemma_b7_final(m1, res1, blocks@, ents, lc0, should_scan_files, file_system, path_checker, parsers@, extra_file_extensions@);
+    }
+//@letchain rule=E8 find=<<if let Some(file_blocks) = file_blocks_opt &&>> count=all
+//@chain rule=E13 find=<<.as_deref(>> to=verif_opt_vec_as_deref recvprefix=<<&>> optional=1
+//@chain rule=E13 find=<<.as_path(>> to=verif_as_path recvprefix=<<&>> count=all
+//@macro rule=E1 name=anyhow to=<<anyhow::verif_err()>> optional=1
 //@end
 
 } // verus!
